@@ -22,7 +22,7 @@ ASSUMPTIONS = ["a settled enable < 0 is unspecified by the documentation; reader
 
 
 def budget(tier):
-    return {"examples": 1200 if tier == "quick" else 20000, "wall_s": 110 if tier == "quick" else 1500}
+    return {"examples": 1200 if tier == "quick" else 20000, "wall_s": 110 if tier == "quick" else 900}
 
 
 @st.composite
